@@ -91,6 +91,16 @@ def features_strategy(draw, tier):
     max_n = 25 if tier == "quick" else 120
     soma = draw(st.integers(0, 9)) != 0
     t = draw(gen_tree.tree_case(min_abs=2.0 ** -10, min_n=1, max_n=max_n, soma_root=soma, mag=1000.0))
+    how = draw(st.integers(0, 9))
+    if how <= 1 and len(t["parents"]) >= 3:
+        # a neurite that curls back: a branch (or a whole root-to-tip path) of non-zero length whose last node sits
+        # exactly on its first node - straight-line distance 0, tortuosity 0
+        seqs = [b for b in (models.branches(t["parents"]) if how == 0 else models.paths(t["parents"])) if len(b) >= 3]
+        if seqs:
+            b = seqs[draw(st.integers(0, len(seqs) - 1))]
+            for c in "xyz":
+                t[c][b[-1]] = t[c][b[0]]
+            t["closed_loop"] = True
     return {"tree": t, "form": draw(st.sampled_from(["single", "list", "dict"])),
             # the measured tree is derived from another tree that was itself measured first: re-rooted, re-sorted,
             # joined with a small second tree, or a copy re-parented in place through a node handle
@@ -170,6 +180,8 @@ def run_features(case, ctx):
     zero_seg = any(R["seg"][i] == 0 for i in range(n) if parents[i] != -1)
     ctx.cls(*classes, "zero-length-segment" if zero_seg else "no-zero-length-segment",
             "soma-root" if t["type"][R["root"]] == 1 else "non-soma-root")
+    if t.get("closed_loop"):
+        ctx.cls("a-branch-or-path-ends-where-it-starts")
     ctx.nontrivial(n >= 6 and nfurc >= 2)
 
     # length
@@ -570,7 +582,8 @@ SUBCHECKS = [
         required={"furcations>=2": 150, "zero-length-segment": 80, "non-soma-root": 20, "rootdeg:1": 40,
                   "rootdeg:3+": 40, "single-node": 3, "front-end:list": 50, "front-end:dict": 50,
                   "branch:zero-length": 5, "measured-tree-derived-from-a-measured-tree": 400, "derived-by:redirect": 60,
-                  "derived-by:sort": 60, "derived-by:cat": 60, "derived-by:copy-reparent": 60}),
+                  "derived-by:sort": 60, "derived-by:cat": 60, "derived-by:copy-reparent": 60,
+                  "a-branch-or-path-ends-where-it-starts": 150}),
     Sub("sholl", sholl_strategy, run_sholl, quick=2400, thorough=30000, shards_quick=4,
         required={"root-off-origin": 200, "rmax>0": 300, "sholl-object-made-with-the-deprecated-step-argument": 100,
                   "front-end:same-feature-twice-in-one-request": 100}),
